@@ -60,6 +60,15 @@ static M rnd_box_exact(Rng &r, int &kind) {
   // reduced triclinic: |bx| <= ax/2, |cx| <= ax/2, |cy| <= by/2, multiples of 1/8 of the diagonal (including the limits)
   b(0, 1) = ax * dy(r, -4, 4, 8); b(0, 2) = ax * dy(r, -4, 4, 8); b(1, 2) = by * dy(r, -4, 4, 8);
   if (kind == 9) { b(0, 1) = ax * dy(r, -12, 12, 8); b(1, 2) = by * dy(r, -12, 12, 8); }  // not reduced
+  // barely triclinic (one case in eight of the triclinic ones): tilts of 2^-30 .. 2^-17 of an edge, some of them zero; the box is
+  // triclinic as soon as one off-diagonal entry is not exactly zero
+  if (kind != 9 && r.coin(1, 8)) {
+    b(0, 1) = r.coin(1, 3) ? 0.0 : ax * std::ldexp((double)r.range(-3, 3), -(int)r.range(17, 30));
+    b(0, 2) = r.coin(1, 3) ? 0.0 : ax * std::ldexp((double)r.range(-3, 3), -(int)r.range(17, 30));
+    b(1, 2) = r.coin(1, 3) ? 0.0 : by * std::ldexp((double)r.range(-3, 3), -(int)r.range(17, 30));
+    if (b(0, 1) == 0 && b(0, 2) == 0 && b(1, 2) == 0) b(0, 1) = ax * std::ldexp(1.0, -24);
+    return b;
+  }
   if (b(0, 1) == 0 && b(0, 2) == 0 && b(1, 2) == 0) b(0, 2) = ax / 4;
   return b;
 }
@@ -117,6 +126,7 @@ int main(int argc, char **argv) {
       }
       if (kind >= 1) { b(0, 0) = 1 + r.unit() * 5; b(1, 1) = 1 + r.unit() * 5; b(2, 2) = 1 + r.unit() * 5; }
       if (kind == 2) { b(0, 1) = (r.unit() - 0.5) * b(0, 0); b(0, 2) = (r.unit() - 0.5) * b(0, 0); b(1, 2) = (r.unit() - 0.5) * b(1, 1); }
+      if (kind == 2 && r.coin(1, 8)) { double eps = std::pow(10.0, -(double)r.range(5, 9)); b(0, 1) *= eps; b(0, 2) *= eps; b(1, 2) *= eps; }   // barely triclinic
       V ri((r.unit() - 0.5) * 40, (r.unit() - 0.5) * 40, (r.unit() - 0.5) * 40), rj((r.unit() - 0.5) * 40, (r.unit() - 0.5) * 40, (r.unit() - 0.5) * 40);
       if (r.coin(1, 3)) rj = ri + V((r.unit() - 0.5), (r.unit() - 0.5), (r.unit() - 0.5));
       mic_case("gmic", 'A', b, ri, rj, (int)r.range(-3, 3), (int)r.range(-3, 3), (int)r.range(-3, 3));
